@@ -129,3 +129,54 @@ theorem observeT (h : D.WF) (ht : tg.WF)
     | cursor l => exact ⟨_, runT_cursor D tg md ops l, finishT_cursor D tg md _ fin⟩
 
 end ET.T
+
+namespace ET
+
+/-! ### which initial states are cursors (every mode but `next_and_back`) -/
+
+theorem cursor_of_bind {α : Type} (r : Res α) (f : α → List Int) (st : IterState Int)
+    (hr : (r.bind fun x => Res.ok (IterState.cursor (f x))) = .ok st) : ∃ l, st = .cursor l := by
+  cases r with
+  | ok a => simp only [Res.bind_ok] at hr; injection hr with e; exact ⟨f a, e.symm⟩
+  | panic w => simp at hr
+  | ub w => simp at hr
+
+theorem iterInit_cursor (D : Derive) (m : IterMode) (hm : m ≠ .nextAndBack) (st : IterState Int) (hi : iterInit D m = .ok st) :
+    ∃ l, st = .cursor l := by
+  cases m with
+  | nextAndBack => exact absurd rfl hm
+  | range => exact cursor_of_bind _ (fun l => l) st hi
+  | auto => simp only [iterInit] at hi; injection hi with e; exact ⟨_, e.symm⟩
+  | table => simp only [iterInit] at hi; injection hi with e; exact ⟨_, e.symm⟩
+  | tableInline => simp only [iterInit] at hi; injection hi with e; exact ⟨_, e.symm⟩
+
+theorem rangeSlice_cursor (D : Derive) (si ei : Nat) (st : IterState Int) (hs : rangeSlice D si ei = .ok st) : ∃ l, st = .cursor l := by
+  unfold rangeSlice at hs
+  split at hs
+  · injection hs with e; exact ⟨_, e.symm⟩
+  · exact cursor_of_bind _ (fun l => l) st hs
+
+theorem rangeInit_cursor (D : Derive) (t : Target) (m : IterMode) (hm : m ≠ .nextAndBack) (a b : Int) (st : IterState Int)
+    (hi : rangeInit D t m a b = .ok st) : ∃ l, st = .cursor l := by
+  unfold rangeInit at hi
+  split at hi
+  · cases m with
+    | nextAndBack => exact absurd rfl hm
+    | range => exact cursor_of_bind _ (fun l => l) st hi
+    | table => exact rangeSlice_cursor D _ _ st hi
+    | auto => simp only at hi; injection hi with e; exact ⟨_, e.symm⟩
+    | tableInline => simp only at hi; injection hi with e; exact ⟨_, e.symm⟩
+  · cases m with
+    | nextAndBack => exact absurd rfl hm
+    | table =>
+      simp only at hi
+      cases hx : rangeIdx D t a b with
+      | ok p => rw [hx] at hi; exact rangeSlice_cursor D _ _ st hi
+      | panic w => rw [hx] at hi; simp at hi
+      | ub w => rw [hx] at hi; simp at hi
+    | range => simp only at hi; injection hi with e; exact ⟨_, e.symm⟩
+    | auto => simp only at hi; injection hi with e; exact ⟨_, e.symm⟩
+    | tableInline => simp only at hi; injection hi with e; exact ⟨_, e.symm⟩
+
+
+end ET
